@@ -129,25 +129,38 @@ class C14(CFGProp):
         if not ref["ll1"]:
             return
         self._parse(ctx, m, LLOneParser(g), r, [(w, w in ref["lang"]) for w in W4], NotParsableException)
+        # the same grammar given as a list that names every production twice, and what eliminate_unit_productions()
+        # makes of a grammar without unit productions (the same grammar)
+        variants = [("productions listed twice", lambda: O.build_cfg(case, "plain", "list2"))]
+        if not any(len(b) == 1 and b[0] < case[0] for _, b in case[2]):
+            variants.append(("eliminate_unit_productions()", lambda: O.build_cfg(case, "plain", "prods").eliminate_unit_productions()))
+        for what, build in variants:
+            g2 = ctx.call(build)
+            if not ctx.returns(g2, "C14.build", what=what):
+                continue
+            v2 = ctx.call(LLOneParser(g2.value).is_llone_parsable)
+            if ctx.returns(v2, "C14.is_llone_parsable", what=what):
+                ctx.expect(v2.value is True, "C14.is_llone_parsable", what=what, got=v2.value, want=True)
+            self._parse(ctx, m, LLOneParser(g2.value), r, [(w, w in ref["lang"]) for w in W4[:40]], NotParsableException, what=what)
 
     @staticmethod
-    def _parse(ctx, m, parser, r, words, NotParsableException):
+    def _parse(ctx, m, parser, r, words, NotParsableException, **kw):
         for w, member in words:
             t = ctx.call(parser.get_llone_parse_tree, list(w))
             if t.kind == "timeout":
-                ctx.fail("C14.parse.terminates", word=w)
+                ctx.fail("C14.parse.terminates", word=w, **kw)
                 return
             if t.ok:
                 if not member:
-                    ctx.fail("C14.parse.refuses_non_members", word=w, got="a tree was returned")
+                    ctx.fail("C14.parse.refuses_non_members", word=w, got="a tree was returned", **kw)
                 else:
                     why = RT.validate_tree(m, t.value, r, w)
-                    ctx.expect(why is None, "C14.parse.tree_valid", word=w, why=why)
+                    ctx.expect(why is None, "C14.parse.tree_valid", word=w, why=why, **kw)
             elif isinstance(t.exc, NotParsableException):
                 if member:
-                    ctx.fail("C14.parse.accepts_members", word=w, got="NotParsableException")
+                    ctx.fail("C14.parse.accepts_members", word=w, got="NotParsableException", **kw)
             else:
-                ctx.fail("C14.parse.exception_type", word=w, got=t.describe(), member=member)
+                ctx.fail("C14.parse.exception_type", word=w, got=t.describe(), member=member, **kw)
 
 
 PROP = C14()
